@@ -19,7 +19,10 @@ RULE = ("cases from the seed: base shape 1..4 cells per axis (<= 3 when three ax
         "'seam dual width' (backward metric uses w[-1] := w[0] instead of wrapping). Every run also contains forced oracle-only "
         "cases (no Lean tier) with a FULL 9-component symmetric positive definite inverse-permittivity tensor and with a full "
         "inverse-permeability tensor (off-diagonals non-zero, tiled) on a tiled Bloch axis with k != 0, uniform grid; the Bloch "
-        "axis rotates over x/y/z with the seed. non-trivial = every case (m > 1).")
+        "axis rotates over x/y/z with the seed. One more oracle-only case per run (thorough: 6): a block of a material with an "
+        "ORIENTED Lorentz pole (off-diagonal ADE coupling tensor, built with fdtdx.LorentzPole(orientation=...) through "
+        "place_objects) whose coupling coefficients differ across the periodic seam, two periodic axes + PEC on the third "
+        "(x/y + PEC z or y/z + PEC x), random E, H and polarisation state, tiled 2x2; E, H and P compared. non-trivial = every case (m > 1).")
 
 TOL = 1e-9
 SIG = "C09-nonuniform-seam-dual-width"
@@ -161,6 +164,89 @@ def verdict(c, out):
     return None
 
 
+# ------------------------------------------------------------ oriented-pole dispersive material (oracle only)
+def oriented_forced(seed, k=0):
+    """base cell with a block of a material carrying an ORIENTED Lorentz pole (off-diagonal ADE coupling, 9-component
+    tier), placed so that the coupling coefficients differ across the periodic seam; two periodic axes + PEC on the third
+    (x/y periodic + PEC z, or y/z periodic + PEC x: the wrap flags of x and z differ), uniform grid"""
+    v = (seed + k) % 2
+    if v == 0:
+        shape, m, walls = [3, 2, 4], [2, 2, 1], 2
+        block = {"pos": [0, 0, 1], "size": [1 + (seed // 2 + k) % 2, 1, 2]}
+    else:
+        shape, m, walls = [4, 2, 3], [1, 2, 2], 0
+        block = {"pos": [1, 0, 0], "size": [2, 1, 1 + (seed // 2 + k) % 2]}
+    faces = {}
+    for ax in range(3):
+        faces[Y.FACES[2 * ax]] = faces[Y.FACES[2 * ax + 1]] = "pec" if ax == walls else "periodic"
+    block.update(kind="lorentz", w0=5.0e15, gamma=2.0e14, de=2.0, eps_inf=2.2,
+                 orientation=[[1.0, 0.7, 0.5], [0.4, 1.0, -0.8], [1.0, -1.0, 0.3]][(seed + k) % 3])
+    return dict(mode="oriented", shape=shape, m=m, faces=faces, block=block, steps=3, seed=1000 + 17 * seed + k)
+
+
+def oriented_pair(c):
+    from . import c10 as L
+    j = Y.J()
+    f, jnp = j["fdtdx"], j["jnp"]
+    extra = lambda vol: L.dispersive_block(f, vol, c["block"])
+    mshape = [n * m for n, m in zip(c["shape"], c["m"])]
+    base = Y.build(c["shape"], c["faces"], gradient=None, extra_fn=extra)
+    sup = Y.build(mshape, c["faces"], gradient=None, extra_fn=extra)
+    r = np.random.default_rng(c["seed"])
+    n3 = (3,) + tuple(c["shape"])
+    ab = base.arrays
+    if ab.dispersive_c3 is None or ab.dispersive_c3.shape[1] != 9:
+        raise RuntimeError("oriented-pole material did not allocate the 9-component coupling tier")
+    npoles = ab.dispersive_c3.shape[0]
+    E, H = r.standard_normal(n3), r.standard_normal(n3)
+    P1, P0 = 0.1 * r.standard_normal((npoles,) + n3), 0.1 * r.standard_normal((npoles,) + n3)
+    # polarisation only where the material is
+    mask = (np.asarray(ab.dispersive_c3) != 0).any(axis=1, keepdims=True)
+    P1, P0 = P1 * mask, P0 * mask
+    tl = lambda A, lead: np.tile(np.asarray(A), (1,) * lead + tuple(c["m"]))
+    out = {}
+    for nm, sc, t_ in (("base", base, False), ("super", sup, True)):
+        a = sc.arrays
+        g = (lambda A, lead: tl(A, lead)) if t_ else (lambda A, lead: np.asarray(A))
+        a = a.aset("inv_permittivities", jnp.asarray(g(ab.inv_permittivities, 1)))
+        for nmc in ("dispersive_c1", "dispersive_c2", "dispersive_c3"):
+            a = a.aset(nmc, jnp.asarray(g(getattr(ab, nmc), 2)))
+        a = a.aset("fields->E", jnp.asarray(g(E, 1)))
+        a = a.aset("fields->H", jnp.asarray(g(H, 1)))
+        a = a.aset("fields->dispersive_P_curr", jnp.asarray(g(P1, 2)))
+        a = a.aset("fields->dispersive_P_prev", jnp.asarray(g(P0, 2)))
+        st = Y.impl_forward(sc, a, t=0, n=c["steps"])
+        out[nm] = {"E": np.asarray(st[1].fields.E), "H": np.asarray(st[1].fields.H), "P": np.asarray(st[1].fields.dispersive_P_curr)}
+    out["c3_varies_across_seam"] = bool(any(
+        c["m"][ax] > 1 and np.any(np.take(np.asarray(ab.dispersive_c3), 0, axis=ax + 2) != np.take(np.asarray(ab.dispersive_c3), -1, axis=ax + 2))
+        for ax in range(3)))
+    out["offdiag"] = bool(np.any(np.asarray(ab.dispersive_c3)[:, [1, 2, 3, 5, 6, 7]] != 0))
+    return out
+
+
+def oriented_verdict(c, out):
+    for nm, lead in (("E", 1), ("H", 1), ("P", 2)):
+        ref = np.tile(out["base"][nm], (1,) * lead + tuple(c["m"]))
+        got = out["super"][nm]
+        scale = max(1.0, float(np.max(np.abs(ref))))
+        e = float(np.max(np.abs(got - ref))) / scale if got.shape == ref.shape else float("inf")
+        if not e <= TOL:
+            return (f"oriented-pole dispersive cell: {nm} of the {c['m']}-fold supercell after {c['steps']} step(s) differs from the tiled "
+                    f"base-cell {nm} by {e:.3e}")
+    return None
+
+
+def one_oriented_case(ctx, c):
+    out = oriented_pair(c)
+    d = oriented_verdict(c, out)
+    ctx.impl_property_evals += 1
+    ctx.case(nontrivial=("oriented", tuple(c["shape"]), c["seed"]) if out["c3_varies_across_seam"] and out["offdiag"] else None,
+             mode="oriented-pole", coupling_varies_across_seam=out["c3_varies_across_seam"], offdiag_coupling=out["offdiag"],
+             walls_axis="xyz"[[ax for ax in range(3) if c["faces"][Y.FACES[2 * ax]] == "pec"][0]])
+    if d:
+        ctx.violation(c, d)
+
+
 def known_class(c):
     return c["widths"] is not None and not c["seam_symmetric"]
 
@@ -240,21 +326,32 @@ def run(ctx):
         cases.append(gen_case(ctx.rng, ctx.thorough))
     for i, c in enumerate(cases):
         one_case(ctx, c, sample=i in (1, 2))
+    for k in range(ctx.scale(1, 6)):
+        one_oriented_case(ctx, oriented_forced(ctx.seed, k))
 
 
 def property_fails(c):
+    if c.get("mode") == "oriented":
+        return oriented_verdict(c, oriented_pair(c))
     return verdict(c, impl_pair(c))
 
 
 def search(ctx, hints):
     for h in hints:
-        if isinstance(h, dict) and "shape" in h and not known_class(h):
+        if isinstance(h, dict) and "shape" in h and (h.get("mode") == "oriented" or not known_class(h)):
             ctx.impl_property_evals += 1
             d = property_fails(h)
             if d:
                 ctx.violation(h, d)
                 return
     rng = ctx.rng.fork()
+    for k in range(4):
+        c = oriented_forced(ctx.seed, k)
+        ctx.impl_property_evals += 1
+        d = property_fails(c)
+        if d:
+            ctx.violation(c, d)
+            return
     for k in range(6):
         c = gen_case(rng, False, aniso_forced(ctx.seed, "eps" if k % 2 == 0 else "mu", k))
         ctx.impl_property_evals += 1
